@@ -198,7 +198,7 @@ def items_in(src, st, lo, hi):
                         end_i = j; break
                 j += 1
         if kw == "impl":
-            header = "".join(x.text for x in st[kw_i:body_open]) if body_open else None
+            header = " ".join(x.text for x in st[kw_i:body_open]) if body_open else None
         elif kw == "macro_rules":
             name = st[kw_i + 2].text if st[kw_i + 1].text == "!" else None
         elif kw in ("use", "extern"):
